@@ -227,13 +227,16 @@ def install(I):
         val, ov = I.binop(op, a, b, st).fields
         return I.ret(st, Agg('()', (val, ov)))
 
-    @M(r'^core::num::<impl [iu](8|16|32|64|128|size)>::(min|max)$|^<[iu](8|16|32|64|128|size) as Ord>::(min|max)$|^std::cmp::(min|max)$|^(min|max)$', 'Ord::min/max (ints)')
+    @M(r'^core::num::<impl [iu](8|16|32|64|128|size)>::(min|max)$|^<[iu](8|16|32|64|128|size) as Ord>::(min|max)$|^std::cmp::(min|max)(::<.*>)?$|^(min|max)(::<.*>)?$', 'Ord::min/max (ints)')
     def m_minmax(I, st, f, args, fr):
         a, b = two(I, st, args)
         if not isinstance(a, Sc):
             return NotImplemented
         lt = I.binop('Lt', a, b, st)
-        if f.rsplit('::', 1)[-1].startswith('min'):
+        mm = re.search(r'(?:^|::)(min|max)(?:::<.*>)?$', f)
+        if mm is None:
+            return NotImplemented
+        if mm.group(1) == 'min':
             # Ord::min returns `other` only if other < self ... for ints value-identical
             return I.ret(st, Sc(z3.If(lt, a.t, b.t), a.ty))
         return I.ret(st, Sc(z3.If(lt, b.t, a.t), a.ty))
